@@ -223,6 +223,22 @@ impl Storage {
         *self.cold.lock().unwrap() = Some(ColdState::default());
     }
 
+    /// oracle privilege: mark every pack as warmed (so that the harness can read the repository
+    /// back without being judged for it)
+    pub fn warm_everything(&self) {
+        let ids: Vec<(u8, Id)> = self.files.lock().unwrap().keys().copied().collect();
+        if let Some(c) = self.cold.lock().unwrap().as_mut() {
+            c.warmed.extend(ids);
+        }
+    }
+
+    /// everything is cold again
+    pub fn cool_down(&self) {
+        if let Some(c) = self.cold.lock().unwrap().as_mut() {
+            c.warmed.clear();
+        }
+    }
+
     pub fn cold_state(&self) -> Option<ColdState> {
         self.cold.lock().unwrap().clone()
     }
